@@ -14,7 +14,6 @@ package simrt
 import (
 	"fmt"
 	"runtime"
-	"unsafe"
 	"sort"
 	"strings"
 	"time"
@@ -84,10 +83,10 @@ type Actor struct {
 	started bool
 }
 
-func (a *Actor) State() string   { return stateNames[a.st] }
-func (a *Actor) Done() bool      { return a.st == stDone }
-func (a *Actor) Blocked() bool   { return a.st == stBlocked }
-func (a *Actor) Sleeping() bool  { return a.st == stSleeping }
+func (a *Actor) State() string     { return stateNames[a.st] }
+func (a *Actor) Done() bool        { return a.st == stDone }
+func (a *Actor) Blocked() bool     { return a.st == stBlocked }
+func (a *Actor) Sleeping() bool    { return a.st == stSleeping }
 func (a *Actor) PendingKind() Kind { return a.kind }
 
 // Escaped describes a panic that escaped an actor's top-level function.
@@ -102,10 +101,10 @@ type Escaped struct {
 type evKind uint8
 
 const (
-	evChan evKind = iota // non-blocking send on a timer channel
-	evFunc               // spawn an actor running fn
-	evWake               // wake a sleeping actor
-	evExternal           // something outside the kernel fires (std context deadline)
+	evChan     evKind = iota // non-blocking send on a timer channel
+	evFunc                   // spawn an actor running fn
+	evWake                   // wake a sleeping actor
+	evExternal               // something outside the kernel fires (std context deadline)
 )
 
 type event struct {
@@ -141,37 +140,37 @@ type Config struct {
 
 // Stats collected per run.
 type Stats struct {
-	Steps          int
-	Decisions      int
-	Switches       int
-	MultiPoints    int
-	LockContended  int
-	ChanBlocked    int
-	TimerFired     int
-	ClockAdvances  int
-	StallAdvances  int
-	Spawned        int
-	SelectMulti    int
-	SameInstant    int
-	Goscheds       int
-	KindCount      [32]int
+	Steps         int
+	Decisions     int
+	Switches      int
+	MultiPoints   int
+	LockContended int
+	ChanBlocked   int
+	TimerFired    int
+	ClockAdvances int
+	StallAdvances int
+	Spawned       int
+	SelectMulti   int
+	SameInstant   int
+	Goscheds      int
+	KindCount     [32]int
 }
 
 // Kernel is one simulated execution.
 type Kernel struct {
-	cfg     Config
-	actors  []*Actor
-	cur     *Actor
-	driver  *Actor
-	now     time.Duration
-	Epoch   time.Time
-	events  []*event
-	seq     uint64
-	limit   time.Duration // clock may advance up to here during the current Settle
-	done    chan struct{}
-	killAck chan struct{}
-	dying   bool
-	capped  bool
+	cfg        Config
+	actors     []*Actor
+	cur        *Actor
+	driver     *Actor
+	now        time.Duration
+	Epoch      time.Time
+	events     []*event
+	seq        uint64
+	limit      time.Duration // clock may advance up to here during the current Settle
+	done       chan struct{}
+	killAck    chan struct{}
+	dying      bool
+	capped     bool
 	Deadlocked bool
 
 	Decisions []int
@@ -183,7 +182,6 @@ type Kernel struct {
 	Fatals    []string
 
 	objIDs  map[uintptr]int
-	pins    []unsafe.Pointer
 	pend    map[uintptr][]*pendSend
 	spin    int
 	mapPerm func(n int) []int
@@ -254,9 +252,6 @@ func (k *Kernel) ObjID(key uintptr) int {
 	if !ok {
 		id = len(k.objIDs) + 1
 		k.objIDs[key] = id
-		// pin the object for the rest of the run: a collected address could be reused by a new object,
-		// which would inherit this id depending on GC timing (event-log hashes would then differ)
-		k.pins = append(k.pins, unsafe.Pointer(key)) //nolint:govet
 	}
 	return id
 }
@@ -271,8 +266,9 @@ func (k *Kernel) Log(s string) {
 }
 
 func (k *Kernel) logStep(a *Actor, kind Kind, key uintptr) {
+	// object ids are address based (an address can be reused after a collection), so they appear in
+	// human-readable traces only, never in the hash that determinism checks compare
 	k.LogHash = mix(k.LogHash, uint64(a.ID)<<16|uint64(kind)<<8)
-	k.LogHash = mix(k.LogHash, uint64(k.ObjID(key)))
 	if k.cfg.Trace {
 		k.TraceLog = append(k.TraceLog, fmt.Sprintf("%d t=%v a%d .%s o%d", k.Stats.Steps, k.now, a.ID, kind, k.ObjID(key)))
 	}
